@@ -96,6 +96,185 @@ let rec go tgt c js ts =
         | PDone | PIdle -> false
         | _ -> if ((fst c).ag n1).blocked then false else go tgt (stepc tgt c n1) js []))
 
+(* ---------------------------------------------------------------------------------------------
+   IN REJOIN id var=<v> E=<tok>,...  -> OUT REJOIN id accept | reject      (+ GAP REJOIN id <n> <why>)
+   Acceptor for the re-join-after-interruption traces of harness/c13_rejoin.cpp.  The tokens are the
+   hook records of one case in GLOBAL log order, tagged with the task that executed the hook:
+     J (task 0, program [AJoin 0; ACatch] x 8)   a1/a0 c0/c1 w r x
+     T (task 1 = tgt 0 0, empty body)             b k f p n
+     I (task 2, program [AIntr 0] x 8)            i  (request step + the wake-up step PIntrWake)
+   task 3 is the environment ([AResume 0] x 64: spurious returns of J's suspension, as the agent
+   contract allows).  Model: jrun true true (both fixes), h0 = everything joinable.
+   WHAT IS CHECKED (driver-side search, not a Coq function): there is an execution of the extracted
+   model  tstep true true  from the initial configuration in which
+     (1) every token is matched, in the order of its role, by the model transition of that task it
+         stands for, with the observed value: a1 = PJoinAdd pushes (J, S gen) / a0 = refused because
+         ran || terminated; c1/c0 = PJoinChk reads flag J T (gen J) = true/false; w = the suspension
+         (PJoinSusp: interruption point not taken, a_suspend) returned (J not blocked: woken by the
+         model's own resumes or by the environment) and PJoinWake's interruption point is not taken;
+         x = an interruption point of join throws (PJoinIP, PJoinSusp or PJoinWake with
+         en && req; control continues behind ACatch); r = PJoinDet; b = thread function returned;
+         k = PExit/PCbPop take the front entry out of the list (list non-empty); f = PCbRun sets the
+         flag OF THAT ENTRY (its generation); p = PCbRes resumes; n = the list is empty, ran := true;
+         i = AIntr accepted (interruption enabled) followed by the wake-up;
+     (2) the cross-role order respects what the log proves: every hook is logged AFTER its
+         transition's effect (x, r: no effect another task reads), and a task's transition happens
+         after that task's previous hook returned; so if token A (role X) is logged before the
+         PREDECESSOR of token B in B's own role (Y <> X), A's transition precedes B's.  Nothing else
+         about the cross-role order is assumed (a hook may be logged late);
+     (3) unobserved steps: J's body steps up to the join, the suspension itself, T's steps once its
+         records are exhausted (logging stops while its exit phase may still run).
+   A trace that stops early (J hangs, logging cut) is accepted if the observed prefix is an execution:
+   hangs are judged by the monitors.  Tokens outside the vocabulary (?<site>) are dropped and reported
+   on a GAP line (coverage gap, never an alarm); a search that exceeds its node budget answers
+   accept + GAP. *)
+let n3 = nat_of_int 3
+type rjev = { role : int; code : string; pos : int; pred : int }
+
+let rj_budget = ref 0
+exception Rj_budget
+
+let rj_accept (evs : rjev array) =
+  let tgt _ _ = n1 in
+  let h0 _ _ = true in
+  let rec rep k l = if k = 0 then [] else l @ rep (k - 1) l in
+  let progs x =
+    if x = n0 then rep 8 [AJoin n0; ACatch]
+    else if x = n1 then []
+    else if x = n2 then List.init 8 (fun _ -> AIntr n0)
+    else List.init 64 (fun _ -> AResume n0) in
+  let c0 = jrun true true tgt h0 (nat_of_int 4) progs [] in
+  let by_role r = List.filter (fun e -> e.role = r) (Array.to_list evs) in
+  let seqs = [| Array.of_list (by_role 0); Array.of_list (by_role 1); Array.of_list (by_role 2) |] in
+  let pcof c t = (snd c t).pc in
+  let blocked_j c = ((fst c).ag n0).blocked in
+  let unblock c = if blocked_j c then stepc tgt c n3 else c in
+  (* J: run the unobserved body steps up to the interruption point at the entry of join *)
+  let rec adv_ip c fuel =
+    if fuel = 0 then c else
+    match pcof c n0 with
+    | PBody -> (match (snd c n0).prog with
+                | (AJoin _ | ACatch) :: _ -> adv_ip (stepc tgt c n0) (fuel - 1)
+                | _ -> c)
+    | _ -> c in
+  let is_body c = (match pcof c n0 with PBody -> true | _ -> false) in
+  let apply_j c e =
+    match e with
+    | "a0" | "a1" ->
+      let c = adv_ip c 4 in
+      (match pcof c n0 with
+       | PJoinIP (_, _) ->
+         let c1 = stepc tgt c n0 in
+         (match pcof c1 n0 with
+          | PJoinAdd (_, _) ->
+            let c2 = stepc tgt c1 n0 in
+            (match pcof c2 n0, e with
+             | PJoinChk (_, _, _), "a1" -> [c2]
+             | PJoinDet (_, _), "a0" -> [c2]
+             | _ -> [])
+          | _ -> [])
+       | _ -> [])
+    | "c0" | "c1" ->
+      (match pcof c n0 with
+       | PJoinChk (_, _, _) ->
+         let c1 = stepc tgt c n0 in
+         (match pcof c1 n0, e with
+          | PJoinDet (_, _), "c1" -> [c1]
+          | PJoinSusp (_, _), "c0" -> [c1]
+          | _ -> [])
+       | _ -> [])
+    | "w" ->
+      let from_wake c =
+        let c = unblock c in
+        let c1 = stepc tgt c n0 in
+        (match pcof c1 n0 with PJoinChk (_, _, _) -> [c1] | _ -> []) in
+      (match pcof c n0 with
+       | PJoinSusp (_, _) ->
+         let c1 = stepc tgt c n0 in
+         (match pcof c1 n0 with PJoinWake (_, _) -> from_wake c1 | _ -> [])
+       | PJoinWake (_, _) -> from_wake c
+       | _ -> [])
+    | "x" ->
+      (match pcof c n0 with
+       | PJoinSusp (_, _) ->
+         let c1 = stepc tgt c n0 in if is_body c1 then [c1] else []
+       | PJoinWake (_, _) ->
+         let c1 = stepc tgt (unblock c) n0 in if is_body c1 then [c1] else []
+       | _ ->
+         let c = adv_ip c 4 in
+         (match pcof c n0 with
+          | PJoinIP (_, _) -> let c1 = stepc tgt c n0 in if is_body c1 then [c1] else []
+          | _ -> []))
+    | "r" -> (match pcof c n0 with PJoinDet (_, _) -> [stepc tgt c n0] | _ -> [])
+    | _ -> [] in
+  let apply_t c e = (match apply_t tgt c e with Some c' -> [c'] | None -> []) in
+  let apply_i c e =
+    match e, pcof c n2 with
+    | "i", PBody ->
+      let c1 = stepc tgt c n2 in
+      (match pcof c1 n2 with PIntrWake _ -> [stepc tgt c1 n2] | _ -> [])
+    | _ -> [] in
+  let len r = Array.length seqs.(r) in
+  (* position of the next unconsumed token of role r (max_int: none) *)
+  let nextpos idx r = if idx.(r) < len r then seqs.(r).(idx.(r)).pos else max_int in
+  let enabled idx r =
+    let b = seqs.(r).(idx.(r)) in
+    List.for_all (fun r' -> r' = r || nextpos idx r' > b.pred) [0; 1; 2] in
+  let rec go c idx =
+    decr rj_budget;
+    if !rj_budget <= 0 then raise Rj_budget;
+    if idx.(0) >= len 0 && idx.(1) >= len 1 && idx.(2) >= len 2 then true
+    else begin
+      (* candidates in log order *)
+      let roles = List.filter (fun r -> idx.(r) < len r) [0; 1; 2] in
+      let roles = List.sort (fun a b -> compare (nextpos idx a) (nextpos idx b)) roles in
+      List.exists (fun r ->
+          enabled idx r &&
+          (let e = seqs.(r).(idx.(r)) in
+           let succ = (match r with 0 -> apply_j c e.code | 1 -> apply_t c e.code | _ -> apply_i c e.code) in
+           let idx' = Array.copy idx in
+           idx'.(r) <- idx.(r) + 1;
+           List.exists (fun c' -> go c' idx') succ)) roles
+      ||
+      (* J suspends unobserved: the interruption may be delivered after the suspension *)
+      (idx.(0) < len 0 && seqs.(0).(idx.(0)).code = "x" &&
+       (match pcof c n0 with
+        | PJoinSusp (_, _) ->
+          let c1 = stepc tgt c n0 in
+          (match pcof c1 n0 with PJoinWake (_, _) -> go c1 idx | _ -> false)
+        | _ -> false))
+      ||
+      (* the target's records are exhausted: it goes on unobserved *)
+      (idx.(1) >= len 1 &&
+       (match pcof c n1 with
+        | PDone | PIdle -> false
+        | PBody -> false                      (* its body ends only at the observed b *)
+        | _ -> if ((fst c).ag n1).blocked then false else go (stepc tgt c n1) idx))
+    end in
+  go c0 [| 0; 0; 0 |]
+
+let rejoin_line id e =
+  let toks = if e = "-" then [] else split_on ',' e in
+  let gaps = ref [] in
+  let last = [| -1; -1; -1 |] in
+  let evs = ref [] in
+  List.iteri (fun pos tk ->
+      let known r code =
+        evs := { role = r; code = code; pos = pos; pred = last.(r) } :: !evs;
+        last.(r) <- pos in
+      let body = if String.length tk > 1 then String.sub tk 1 (String.length tk - 1) else "" in
+      match tk.[0], body with
+      | 'J', ("a0" | "a1" | "c0" | "c1" | "w" | "r" | "x") -> known 0 body
+      | 'T', ("b" | "k" | "f" | "p" | "n") -> known 1 body
+      | 'I', "i" -> known 2 body
+      | _ -> gaps := tk :: !gaps) toks;
+  let evs = Array.of_list (List.rev !evs) in
+  rj_budget := 2000000;
+  let acc = (try rj_accept evs with Rj_budget -> (gaps := "search-budget" :: !gaps; true)) in
+  if !gaps <> [] then
+    Printf.printf "GAP REJOIN %s %d %s\n" id (List.length !gaps) (String.concat "," (List.rev !gaps));
+  Printf.printf "OUT REJOIN %s %s\n" id (if acc then "accept" else "reject")
+
 let field s pre =
   let lp = String.length pre in
   if String.length s >= lp && String.sub s 0 lp = pre then String.sub s lp (String.length s - lp) else "-"
@@ -123,6 +302,7 @@ let () =
         let ok = join_ok_b tgt (fst c) in
         Printf.printf "OUT SEQ %s main=%s self=%s%s\n" id (results (fst c) n0)
           (if self then results (fst c) st else "-") (if ok then "" else " MODEL-MONITOR-FAILED")
+      | ["IN"; "REJOIN"; id; _var; e] -> rejoin_line id (field e "E=")
       | ["IN"; "RACE"; id; j; t] ->
         let js = split_on ',' (field j "J=") and ts = split_on ',' (field t "T=") in
         let tgt _ _ = n1 in
